@@ -9,7 +9,7 @@ HERE = os.path.dirname(os.path.dirname(os.path.abspath(__file__)))
 # was the check, as first built, strong enough?  (what had to be added when it was not)
 NOTE = {
     "C03e": "no: C03's harnesses are one-step; the registered C10 quick check reports it", "C04d": "no (C04); the registered C13 quick check reports the stale .mh_sequences entry",
-    "C07e": "see check_result.json", "C08d": "no: `history` job added (meaning must not depend on earlier commands)", "C10d": "yes (registered C06 quick check: answered only by the watchdog)",
+    "C07e": "no: `error_text[timeout]` added (the time-out reply was not among the error replies explored)", "C08d": "no: `history` job added (meaning must not depend on earlier commands)", "C10d": "yes (registered C06 quick check: answered only by the watchdog)",
     "C11d": "no: would have been masked by the recorded pack finding; reason made specific (`+completed`)", "C12e": "no: `startup_step` added", "C14d": "yes", "C16d": "yes",
     "C17d": "no: `rename_step +recreate` added", "C18e": "no: `pwfile_reload_step` added", "C19e": "no: front end chained into the user process under one limit", "C20e": "yes",
     "C01-": "no: C01's own epochs are sequential and see only a refused-vs-accepted difference, which the property allows; the interleaving is C10's. The C10 pair stored \\Seen (already set everywhere) so both outcomes looked alike - it now stores \\Answered",
